@@ -26,6 +26,16 @@ func genC01(t *core.Tape, tier string) *Scenario {
 	h := genHandlerCfg(t)
 	c := genClientCfg(t)
 	fixCompat(&c, &h)
+	if t.Bool(1, 6, "scratch.interceptor") {
+		// an interceptor on one side that reads streamed messages through the
+		// conn-level API into a scratch value it keeps per stream
+		if t.Bool(1, 2, "scratch.on.client") {
+			c.Scratch = true
+		} else {
+			h.Scratch = true
+		}
+		sc.Notes["interceptor_receives_into_scratch_value"]++
+	}
 	sc.Handlers = []HandlerCfg{h}
 	sc.Clients = []ClientCfg{c}
 	ncalls := 1 + t.Pick([]int{3, 2, 1}, "ncalls")
